@@ -212,6 +212,8 @@ type observation struct {
 	msgs        []*schema.Message   // Invoke result or the position-wise concatenation of the chunks
 	chunks      [][]*schema.Message // Stream only
 	concatErr   error
+	second      []*schema.Message // fanout host: the list the second consumer of the tools stream received
+	secondSet   bool
 }
 
 func (sp *spec) message() *schema.Message {
@@ -248,6 +250,53 @@ func (sp *spec) build() (func(), func(x *vsched.Exec) (string, error)) {
 		var invoke func() ([]*schema.Message, error)
 		var stream func() (*schema.StreamReader[[]*schema.Message], error)
 		msg := sp.message()
+		if sp.host == "fanout" {
+			// the streamed answers go to TWO value consumers, one superstep apart (the framework concatenates a copy of
+			// the stream for each of them): both must see the list Invoke would give
+			g := compose.NewGraph[*schema.Message, map[string]any]()
+			if err := g.AddToolsNode("tools", tn); err != nil {
+				ob.setupErr = err
+				return
+			}
+			g.AddLambdaNode("first", compose.InvokableLambda(func(ctx context.Context, in []*schema.Message) (map[string]any, error) {
+				ob.msgs = in
+				return map[string]any{"first": len(in)}, nil
+			}))
+			g.AddPassthroughNode("pass")
+			g.AddLambdaNode("second", compose.InvokableLambda(func(ctx context.Context, in []*schema.Message) (map[string]any, error) {
+				ob.second, ob.secondSet = in, true
+				return map[string]any{"second": len(in)}, nil
+			}))
+			g.AddEdge(compose.START, "tools")
+			g.AddEdge("tools", "first")
+			g.AddEdge("tools", "pass")
+			g.AddEdge("pass", "second")
+			g.AddEdge("first", compose.END)
+			g.AddEdge("second", compose.END)
+			r, err := g.Compile(ctx, compose.WithNodeTriggerMode(compose.AllPredecessor)) // END waits for both consumers
+			if err != nil {
+				ob.setupErr = err
+				return
+			}
+			sr, err := r.Stream(ctx, msg)
+			if err != nil {
+				ob.err, ob.returned = err, true
+				return
+			}
+			for {
+				_, err := sr.Recv()
+				if err == io.EOF {
+					break
+				}
+				if err != nil {
+					ob.err, ob.errFromRecv = err, true
+					break
+				}
+			}
+			sr.Close()
+			ob.returned = true
+			return
+		}
 		if sp.host == "graph" {
 			g := compose.NewGraph[*schema.Message, []*schema.Message]()
 			if err := g.AddToolsNode("tools", tn); err != nil {
@@ -481,6 +530,14 @@ func (sp *spec) judge(w *world, ob *observation, x *vsched.Exec) (string, error)
 	} else if got := renderMsgs(ob.msgs); got != wantS {
 		return "", bad("invoke-"+classify(ob.msgs, sp, n), "Invoke returned %s, want %s [%s]", got, wantS, order)
 	}
+	if sp.host == "fanout" {
+		if !ob.secondSet {
+			return "", bad("fanout-second-consumer-not-run", "the second consumer of the tools node's stream never ran [%s]", order)
+		}
+		if got := renderMsgs(ob.second); got != wantS {
+			return "", bad("fanout-second-"+classify(ob.second, sp, n), "the second consumer of the tools node's stream received %s, want %s (the first one received %s) [%s]", got, wantS, renderMsgs(ob.msgs), order)
+		}
+	}
 	if len(w.finished) != n {
 		// not demanded by the statement as such, but a success with a tool still running means the
 		// answer was not produced by that call: cannot happen when the contents above are right.
@@ -688,6 +745,11 @@ var pb2StreamLists = map[string]bool{"t1+t2+t1": true, "u+t1+t2": true, "t2+t2+t
 // at small bounds, everything else is cheap.
 func menu(sp *spec, quick bool) (bool, []int) {
 	ft := features(sp)
+	if sp.host == "fanout" {
+		// two consumers of the streamed answers: success path of two-call lists, Stream only
+		ok := sp.mode == "stream" && !sp.handler && !ft.hasU && ft.nFail == 0 && ft.n == 2 && ft.noYield && ft.kindIn(kInv, kS2, kInv+","+kS2)
+		return ok, []int{0, 1}
+	}
 	list := strings.Join(sp.calls, "+")
 	full := []int{0, 1, 2}
 	if !quick {
@@ -806,7 +868,7 @@ func main() {
 					yields := assignments(actors, func(string) []string { return []string{"1", "0"} })
 					for _, ym := range yields {
 						for _, mode := range []string{"invoke", "stream"} {
-							for _, host := range []string{"direct", "graph"} {
+							for _, host := range []string{"direct", "graph", "fanout"} {
 								sp := &spec{calls: calls, kind: kind, fail: fail, handler: handler, mode: mode, host: host, yield: map[string]int{}}
 								for k, v := range ym {
 									if v == "1" {
